@@ -30,11 +30,15 @@ def _const_attr(ctx, name):
 def r1_ascii_field(ctx):
     fn = M.func(ctx, "OP4._write_ascii_header")
     init = M.func(ctx, "OP4.__init__")
-    # expdigits: len("%.1E" % 1.2) - (find("E") + 2)  -- constant-folded from the format semantics: '1.2E+00'
-    txt = utext(init)
-    ok = "string='%.1E'%1.2" in txt and "self._expdigits=len(string)-(string.find('E')+2)" in txt
-    ctx.check(ok, "OP4.__init__: _expdigits is the number of exponent digits Python prints for '%.1E' (2)", init, nontrivial=False)
-    expdigits = len("1.2E+00") - ("1.2E+00".find("E") + 2)
+    # expdigits: constant-folded from whatever literal expression __init__ uses (today len('%.1E' % 1.2) - (find('E') + 2) = 2)
+    from .constfold import fold_assignments
+    cenv = fold_assignments([st for st in walk_no_nested(init) if isinstance(st, ast.Assign)])
+    expdigits = cenv.get("self._expdigits")
+    if not isinstance(expdigits, int):
+        ctx.error("OP4.__init__: self._expdigits is not a foldable constant expression", init, repr(expdigits))
+        return
+    want = len("%.1E" % 1.2) - ("%.1E" % 1.2).find("E") - 2
+    ctx.check(expdigits == want, f"OP4.__init__: _expdigits ({expdigits}) is the number of exponent digits Python prints for an E format ({want})", init)
     digits = F.sym("digits")
     ev = Evaluator(env={"digits": digits, "self._expdigits": F.const(expdigits)}, src=ctx.src)
     for st in fn.body:
